@@ -178,10 +178,11 @@ def run_pop3d(binary, workdir, idx, job, breaker, timeout=5.0):
     Returns the record (k = "d") or None when the breaker is open."""
     if breaker.open:
         return None
-    md = thread_maildir(workdir, own=not job.get("root"))
+    cred = job.get("cred", "")          # "" plain; "e" / "r": invoked by uid 0 with only the effective (and saved) uid lowered
+    md = thread_maildir(workdir, own=not job.get("root") or bool(cred))
     files = sorted(job["files"], key=lambda f: f["mt"])
-    make_maildir(md, files, own=not job.get("root"))
-    argv = [binary, md] if job.get("root") else [ASUSER, str(UID), binary, md]
+    make_maildir(md, files, own=not job.get("root") or bool(cred))
+    argv = [ASUSER, cred + str(UID), binary, md] if (cred or not job.get("root")) else [binary, md]
     p = subprocess.Popen(argv, stdin=subprocess.PIPE, stdout=subprocess.PIPE, stderr=subprocess.DEVNULL,
                          cwd=workdir, close_fds=True)
     conn = Conn(p, timeout)
